@@ -231,6 +231,20 @@ Proof.
 Qed.
 Print Assumptions C14_removed_check_by_tags_refuted.
 
+(* the limit of GetJournals (50 for a cursor), tested on len(res) AFTER the journal was added: for the
+   code as it is (gj_limit_inclusive = true, `len(res) > maxLimit`) the visit is refused exactly when more than
+   `limit` partitions were acquired: a condition matching exactly `limit` partitions is served.  The
+   refused visit has the (limit+1)-th partition in res: C14_balanced / C14_count cover its release with
+   the others (f_keep puts it into res before CFin; after_visit releases the whole of res). *)
+Theorem C14_limit : forall n limit, limit_hit n limit = true <-> limit < n.
+Proof. intros n limit. exact (limit_hit_incl n limit eq_refl). Qed.
+Print Assumptions C14_limit.
+
+(* the comparison before the repair (`len(res) == maxLimit`): exactly `limit` partitions were refused *)
+Theorem C14_limit_exact_refused_before_repair : forall limit, limit_hit_g false limit limit = true /\ limit_hit limit limit = false.
+Proof. intros limit. split; [apply limit_hit_old; reflexivity|]. destruct (limit_hit limit limit) eqn:E; auto. apply (limit_hit_incl limit limit eq_refl) in E. lia. Qed.
+Print Assumptions C14_limit_exact_refused_before_repair.
+
 (* ---- the users of the index, call by call (model/TIndex.v, last section): on an index in which
    nothing is exclusively locked and no count is negative (e.g. any clean index, or any table the
    end-to-end stream reads between two operations of its single client) ---- *)
@@ -341,3 +355,24 @@ Qed.
 (* the hypotheses of the C14_user_* theorems hold of every clean index *)
 Example ex_users_hyp : unlocked ix2 /\ nonneg ix2.
 Proof. exact (clean_unlocked ix2 ix2_clean). Qed.
+
+(* GetJournals with limit 2: over exactly 2 partitions the query is served and its cursor holds both;
+   over 3 it is refused with all three in res, and everything is released *)
+Example ex_limit_exact_served :
+  let s := reach ix2 [[PQuery [0; 1] 2 None]] (repeat (0,0) 8) in
+  (exists a, nth_error (s_acts s) 0 = Some a /\ a_ctl a = CHold [0; 1]) /\
+  (forall p td, get (s_ix s) p = Some td -> t_readers td = 1%Z).
+Proof.
+  cbv zeta. split; [eexists; split; vm_compute; reflexivity|].
+  intros [|[|p]] td; vm_compute; intros E; try (injection E as <-; reflexivity); destruct p; discriminate E.
+Qed.
+Example ex_limit_refused :
+  let ix3 := ix2 ++ [{| t_tag := 2; t_readers := 0; t_excl := false; t_live := true |}] in
+  let s := reach ix3 [[PQuery [0; 1; 2] 2 None]] (repeat (0,0) 8) in
+  let s' := reach ix3 [[PQuery [0; 1; 2] 2 None]] (repeat (0,0) 14) in
+  (exists a, nth_error (s_acts s) 0 = Some a /\ a_ctl a = CFin /\ f_res (a_f a) = [0; 1; 2] /\ f_err (a_f a) = true) /\
+  all_finished s' = true /\ (forall p td, get (s_ix s') p = Some td -> t_readers td = 0%Z).
+Proof.
+  cbv zeta. split; [eexists; split; [|split; [|split]]; vm_compute; reflexivity|]. split; [vm_compute; reflexivity|].
+  intros [|[|[|p]]] td; vm_compute; intros E; try (injection E as <-; reflexivity); destruct p; discriminate E.
+Qed.
